@@ -131,6 +131,7 @@ func KeyshareUserResponseRequest[T comparable](
 	userResponse := new(big.Int).Add(randomizers["secretkey"], new(big.Int).Mul(challenge, userSecret))
 
 	return KeyshareResponseRequest[T]{
+		Context:            context,
 		Nonce:              nonce,
 		UserResponse:       userResponse,
 		IsSignatureSession: signature,
